@@ -334,7 +334,11 @@ func c24compare(name string, src []byte, withComments bool) (v c24verdict) {
 		spos, smsg, _ := c24firstErr(serr)
 		tag("std-error:" + c24slug(smsg))
 		if fr.err == nil {
-			viol("err-missing:"+c24slug(smsg), fmt.Sprintf("go/parser reports %s: %s; the fork reports no error (%d nodes)", spos, smsg, len(fr.nodes)))
+			key := "err-missing:" + c24slug(smsg)
+			if strings.HasSuffix(smsg, "expected operand, found '{'") {
+				key += "-found-lbrace" // the fork's block-inside-an-expression extension
+			}
+			viol(key, fmt.Sprintf("go/parser reports %s: %s; the fork reports no error (%d nodes)", spos, smsg, len(fr.nodes)))
 			return
 		}
 		fpos, fmsg, _ := c24firstErr(fr.err)
@@ -359,7 +363,13 @@ func c24compare(name string, src []byte, withComments bool) (v c24verdict) {
 		// The statement is about VALID Go.  go/parser leaves some syntax-level checks of the go1.10 parser to the
 		// type checker; if go/types rejects this file on the very line of the fork's first error, the input is
 		// not valid Go and the fork's error is no violation (it is recorded in the tags).
-		if msg := c24typesRejects(name, src, fpos.Line); msg != "" {
+		msg := c24typesRejects(name, src, fpos.Line)
+		if msg == "" && fmsg == "expected expression" && c24typeLiteralAt(sf, fset, fpos.Offset) {
+			// go1.10's checkExpr: a type literal / ellipsis / key:value pair where a VALUE is required is never valid
+			// Go; go/parser since go1.17 leaves it to the type checker (which may not get that far in this file)
+			msg = "type literal used as a value"
+		}
+		if msg != "" {
 			tag("invalid-go:fork-rejects:" + c24slug(fmsg))
 			tag("invalid-go:go/types:" + c24slug(msg))
 			// no claim about the fork's nodes here: echo the productions of the reference's declarations
@@ -403,6 +413,13 @@ func c24compare(name string, src []byte, withComments bool) (v c24verdict) {
 		diffs, _, _ := c24nodeDiff(d, fr.nodes[i+1], true, 4)
 		seen := map[string]bool{}
 		for _, df := range diffs {
+			if strings.HasPrefix(df.key, "nil:") && strings.HasSuffix(df.key, ".Comment") && c24commentAfterMultilineString(src) {
+				// the fork's scanner puts the automatic semicolon BEFORE a trailing comment (C23 finding
+				// autosemi-before-comment), so a comment on the last line of a multi-line raw string counts as
+				// "on the line of the previous token" and becomes the spec's line comment; go/parser (go1.20+)
+				// compares with the line where the string STARTS and does not attach it
+				df.key = "line-comment-after-multiline-raw-string"
+			}
 			if !seen[df.key] {
 				seen[df.key] = true
 				viol(df.key, fmt.Sprintf("declaration %d (%s at %s): %s", i, c24declName(d), fset.Position(d.Pos()), df.desc))
@@ -445,6 +462,47 @@ func c24compare(name string, src []byte, withComments bool) (v c24verdict) {
 		}
 	}
 	return
+}
+
+// c24typeLiteralAt: does a node that go1.10's checkExpr rejects (type literal, ellipsis, key:value) start at offset?
+func c24typeLiteralAt(f *ast.File, fset *token.FileSet, offset int) (found bool) {
+	ast.Inspect(f, func(n ast.Node) bool {
+		switch n.(type) {
+		case *ast.ArrayType, *ast.MapType, *ast.ChanType, *ast.FuncType, *ast.StructType, *ast.InterfaceType, *ast.Ellipsis, *ast.KeyValueExpr:
+			if fset.Position(n.Pos()).Offset == offset {
+				found = true
+			}
+		}
+		return !found
+	})
+	return
+}
+
+// c24commentAfterMultilineString: a string literal that spans lines is followed, on its last line, by a comment
+func c24commentAfterMultilineString(src []byte) bool {
+	fset := token.NewFileSet()
+	f := fset.AddFile("", -1, len(src))
+	var s goscanner.Scanner
+	s.Init(f, src, func(token.Position, string) {}, goscanner.ScanComments)
+	endLine := -1
+	for {
+		pos, tok, lit := s.Scan()
+		switch {
+		case tok == token.EOF:
+			return false
+		case tok == token.COMMENT:
+			if endLine >= 0 && fset.Position(pos).Line == endLine {
+				return true
+			}
+			endLine = -1
+		case tok == token.STRING && strings.Contains(lit, "\n"):
+			endLine = fset.Position(pos).Line + strings.Count(lit, "\n")
+		case tok == token.SEMICOLON && lit == "\n":
+			// automatic semicolon: position depends on the scanner version, keep looking on this line
+		default:
+			endLine = -1
+		}
+	}
 }
 
 type c24fakeImporter struct{}
@@ -563,6 +621,40 @@ func c24sexpr(e ast.Expr) string {
 	return fmt.Sprintf("?%T", e)
 }
 
+// c24typeAsValue: does the expression use a type literal ([]T, [n]T, map, chan, func type, struct, interface) where
+// a VALUE is required (operand of a unary / binary operator, parenthesised operand, selector / index base, call
+// argument)?  Conversions `[]T(x)`, composite-literal types and type-assertion types are not values.
+func c24typeAsValue(e ast.Expr) bool {
+	isType := func(x ast.Expr) bool {
+		switch x.(type) {
+		case *ast.ArrayType, *ast.MapType, *ast.ChanType, *ast.FuncType, *ast.StructType, *ast.InterfaceType:
+			return true
+		}
+		return false
+	}
+	found := isType(e) // the whole expression is a type
+	ast.Inspect(e, func(n ast.Node) bool {
+		switch x := n.(type) {
+		case *ast.UnaryExpr:
+			found = found || isType(x.X)
+		case *ast.BinaryExpr:
+			found = found || isType(x.X) || isType(x.Y)
+		case *ast.ParenExpr:
+			found = found || isType(x.X)
+		case *ast.SelectorExpr:
+			found = found || isType(x.X)
+		case *ast.IndexExpr:
+			found = found || isType(x.X)
+		case *ast.CallExpr:
+			for _, a := range x.Args {
+				found = found || isType(a)
+			}
+		}
+		return true
+	})
+	return found
+}
+
 func c24exprSrc(toks []string) (string, bool) {
 	var parts []string
 	for _, t := range toks {
@@ -595,15 +687,20 @@ func c24execBin(toks []string) Result {
 	res := Result{Tags: []string{"bin"}}
 	// reference
 	want := "none"
+	stdTypeAsValue := false
 	if e, err := stdparser.ParseExpr(src); err == nil {
 		want = c24sexpr(e)
+		stdTypeAsValue = c24typeAsValue(e)
 	}
+	forkMsg := ""
 	// fork: `_ = <expr>` through Parser.Parse (the right-hand side goes through parseExpr)
 	got := "none"
 	fr := c24forkParse("e.go", []byte("_ = "+src), 0)
 	switch {
 	case fr.pan != "":
 		got = "panic"
+	case fr.err != nil:
+		_, forkMsg, _ = c24firstErr(fr.err)
 	case fr.err == nil && len(fr.nodes) == 1:
 		if as, ok := fr.nodes[0].(*ast.AssignStmt); ok && len(as.Rhs) == 1 && len(as.Lhs) == 1 {
 			got = c24sexpr(as.Rhs[0])
@@ -613,8 +710,17 @@ func c24execBin(toks []string) Result {
 	if got != want {
 		res.Viol = fmt.Sprintf("expression %q: go/parser builds %s, the fork %s", src, want, got)
 		res.Key = "expr-shape"
-		if got == "none" || want == "none" {
-			res.Key = "expr-error-iff-error"
+		switch {
+		case want == "none":
+			res.Key = "expr-err-missing" // go/parser rejects, the fork accepts
+		case got == "none" && stdTypeAsValue && strings.Contains(forkMsg, "expected expression"):
+			// The statement is about VALID Go.  A type used as a value operand (`^[]a1`, `a + []a1`, `([]a1)`) is
+			// never valid Go; go1.10's parser rejects it syntactically (checkExpr: "expected expression"), go/parser
+			// since go1.17 leaves it to the type checker.  Not a violation; counted in the tags.
+			res.Viol, res.Key = "", ""
+			res.Tags = append(res.Tags, "invalid-go:type-as-value-operand")
+		case got == "none":
+			res.Key = "expr-fork-err-only:" + c24slug(forkMsg)
 		}
 	}
 	nops := 0
@@ -766,6 +872,12 @@ func c24gen(r *rand.Rand, tier string, emit func(string)) {
 		for len(ts) < n {
 			t := alphabet[r.Intn(len(alphabet))]
 			if len(ts) > 0 && (ts[len(ts)-1] == "(" && t == ")" || ts[len(ts)-1] == "." && t == "(") {
+				continue
+			}
+			// `[` only as an index bracket (after an operand): at operand-start position it opens an array TYPE
+			// (`[]a1`, `[a0]a1`), which is outside the model's language (conversions `[]a1(a2)`, `*[]a1` are accepted
+			// by both parsers; as a value operand see the fixed ops in corpus/C24/regress.txt)
+			if t == "[" && (len(ts) == 0 || !(strings.HasPrefix(ts[len(ts)-1], "a") || ts[len(ts)-1] == ")" || ts[len(ts)-1] == "]")) {
 				continue
 			}
 			ts = append(ts, t)
